@@ -43,7 +43,10 @@ BOUNDS = {
     'thorough': 'trickles of 6 bytes, 2 recipients',
 }
 OUTSIDE = ('time spent inside a real TLS handshake or the DNS library; '
-           'connect() itself (socket creator returns at once)')
+           'connect() itself (socket creator returns at once or after a '
+           'delay below the connect timeout); a peer that stops READING '
+           '(sendall() on the fake sockets never blocks; the library sends '
+           'outside its timers)')
 STUBS = ['PipeSocket / ScriptedPeer', 'virtual-time loop with the real '
          'gevent.Timeout', 'Popen stub', 'fake HTTP connection']
 ASSUMPTIONS = []
